@@ -39,8 +39,8 @@ Fixpoint cmp (prev : list (Z * val * val)) (outs : list out) (os : list obs) : b
   | _, _ => false
   end.
 
-(* the model is the code as it is (no proposed repair applied) *)
+(* the model of the code as it is: with the three repairs (c876bb2, 12bf3b7, a77403f) *)
 Definition case_ok (c : case) : bool :=
   match c with
-  | CHist g evs os => cmp [] (trace g cur_code s_init evs) os
+  | CHist g evs os => cmp [] (trace g fixed_code s_init evs) os
   end.
